@@ -67,6 +67,7 @@ def run_server(asyncio_, plan, classns):
         w.open(e)
     s1 = w.connect('e1', '/')
     w.call(w.s.enter_room(s1, 'room'))
+    w.connect('e0', '/')            # e0 starts connected to the default namespace (a further 'connect /' is a repeat)
     cb_ids = {}
 
     def api(tag, thunk):
